@@ -6,20 +6,20 @@
     under every accepted parameter set each operation that is possible under the defaults still ends
     in success or an ordinary rejection."
 
-    Only statements (proved in [Params/Proofs.v]), each with [Print Assumptions].  The model
-    ([Params/Model.v]) follows the FIXED code (repo commits "fix: farm Params.Validate also validates
-    the tax rate", "fix: coinswap Params.Validate rejects a pool creation fee that is not a valid coin",
-    "fix: token Params.Validate rejects an issue-token base fee that is not a valid coin").  A history is an arbitrary list of [pstep]s: attempts to
-    update a module's parameters (via = 0 message of the authority, 1 message of anybody else,
-    2 InitGenesis) and operations of the five modules, which read the STORED sets.
+    Only statements (proved in [Params/Proofs.v], [Params/Sound.v], [Params/Pinned.v]), each with
+    [Print Assumptions].  The model ([Params/Model.v]) follows the REPAIRED code: the eight repo commits
+    "fix: farm Params.Validate also validates the tax rate", "fix: coinswap / token Params.Validate
+    rejects a ... fee that is not a valid coin", "fix: coinswap / farm Params.Validate rejects a pool
+    creation fee amount of more than 255 bits", "fix: token Params.Validate rejects an issue-token base
+    fee amount of more than 195 bits", "fix: htlc asset params validation rejects a fixed fee plus
+    minimum swap amount that overflows 256 bits", "fix: service GetMinDeposit returns an error instead
+    of panicking ...".  With them [validated => no abort] is a full theorem for every module; what was
+    refuted is kept as witnesses against the validators of the PINNED commit ([*_refuted_at_pinned_commit]).
 
-    What is still refuted (known findings, not repaired; message handlers only): a pool-creation /
-    issue fee AMOUNT of 2^255.2 or more passes validation and overflows the 315-bit LegacyDec in the fee
-    split (coinswap, farm, token), and an htlc asset whose fixed fee + minimum swap amount reach 2^256
-    overflows the Int addition in CreateHTLC, and a service minimum-deposit multiple near 2^62 overflows
-    the Int product with a price of 2^193 or more in BindService; the handler panics.  The [_partial] theorems carry the
-    hypothesis [*_small] and the [_refuted] theorems show that it cannot be dropped. *)
-From Irismod Require Import Params.Model Params.Check Params.Proofs Params.Sound.
+    A history is an arbitrary list of [pstep]s: attempts to update a module's parameters (via = 0
+    message of the authority, 1 message of anybody else, 2 InitGenesis) and operations of the five
+    modules, which read the STORED sets. *)
+From Irismod Require Import Params.Model Params.Check Params.Proofs Params.Sound Params.Pinned.
 
 (** ** Only the authority updates *)
 
@@ -62,6 +62,47 @@ Theorem invalid_params_never_stored :
 Proof. intros via. repeat split; intros; apply update_invalid; assumption. Qed.
 Print Assumptions invalid_params_never_stored.
 
+(** *** ... by InitGenesis, stage by stage.
+    InitGenesis = ValidateGenesis (panic on failure), then SetParams (validates again), then a
+    module-specific condition.  Whatever the other stage does ([sp] resp. [vg] arbitrary), each stage
+    that runs [Params.Validate] rejects an invalid set on its own: *)
+Theorem genesis_each_stage_rejects :
+  forall (P : Type) (validate other : P -> outcome) (gx : P -> bool) (p cur : P),
+    validate p <> Ok ->
+    (snd (init_genesis validate other gx p cur) = cur /\ fst (init_genesis validate other gx p cur) <> Ok)
+    /\ (snd (init_genesis other validate gx p cur) = cur /\ fst (init_genesis other validate gx p cur) <> Ok).
+Proof. intros. split; apply init_genesis_guarded; auto. Qed.
+Print Assumptions genesis_each_stage_rejects.
+
+(** Per module, with the stage functions the code really has (table in [Params/Model.v]):
+    coinswap, htlc, service, token run [Params.Validate] in BOTH stages; farm's ValidateGenesis checks
+    the creation-fee coin only, so a bad tax rate (or a 255-bit fee) is rejected by SetParams ALONE --
+    still never stored.  The via = 2 branch of [update_M] used in the histories is this two-stage
+    genesis (same stored set, same acceptance). *)
+Theorem genesis_two_stage_per_module :
+  (forall p cur, snd (update_cs 2 p cur) = snd (init_genesis validate_cs validate_cs (fun _ => true) p cur))
+  /\ (forall p cur, snd (update_fm 2 p cur) = snd (init_genesis vg_fm validate_fm (fun _ => true) p cur))
+  /\ (forall p cur, snd (update_ht 2 p cur) = snd (init_genesis validate_ht validate_ht (fun _ => true) p cur))
+  /\ (forall p cur, snd (update_sv 2 p cur) = snd (init_genesis validate_sv validate_sv (fun _ => true) p cur))
+  /\ (forall p cur, snd (update_tk 2 p cur)
+                    = snd (init_genesis validate_tk validate_tk (fun p => tk_registered (c_denom (tk_fee p))) p cur)).
+Proof.
+  repeat split; intros p cur;
+    [apply (update_genesis_is_two_stage validate_cs validate_cs)
+    |apply (update_genesis_is_two_stage validate_fm vg_fm); apply vg_fm_weaker
+    |apply (update_genesis_is_two_stage validate_ht validate_ht)
+    |apply (update_genesis_is_two_stage validate_sv validate_sv)
+    |apply (update_genesis_is_two_stage validate_tk validate_tk)]; auto.
+Qed.
+Print Assumptions genesis_two_stage_per_module.
+
+Theorem farm_genesis_single_guard :
+  let p := mkFm (mkCoin 1 (Some 5000)) 2 (Some 2000000000000000000) in
+  vg_fm p = Ok /\ validate_fm p = Rej
+  /\ init_genesis vg_fm validate_fm (fun _ => true) p fm_defaults = (Abort, fm_defaults).
+Proof. exact vg_fm_single_guard. Qed.
+Print Assumptions farm_genesis_single_guard.
+
 (** Over histories: starting from the defaults (or from any state whose sets validate), after ANY
     history all five stored sets validate. *)
 Theorem stored_params_always_validate :
@@ -74,97 +115,101 @@ Theorem stored_params_stay_valid :
 Proof. exact run_keeps_valid. Qed.
 Print Assumptions stored_params_stay_valid.
 
-(** ** A validated set never makes a handler or a blocker abort (per module) *)
+(** ** A validated set never makes a handler or a blocker abort (per module, in every state) *)
 
-(** htlc: begin blocker (time-based supply limits), CreateHTLC (incoming / outgoing asset transfer),
-    ClaimHTLC of an incoming transfer -- in every state ([supply], balances arbitrary).
-    Refuted by the same family of extreme magnitudes: [FixedFee.Add(MinSwapAmount)] overflows the
-    256-bit Int when the two validated amounts add up to 2^256 or more. *)
-Theorem htlc_validated_params_never_abort_refuted :
-  exists (p : ht_params) (o : ht_op) (w : Z), validate_ht p = Ok /\ ht_path p o = Some (Panic w).
-Proof. exists ht_big, (HtCreate 10 72339 1 2 61 (Some (0, 0, 0, 0)) 100000), 318. exact ht_refuted. Qed.
-Print Assumptions htlc_validated_params_never_abort_refuted.
-
-Theorem htlc_validated_params_never_abort_partial :
+(** htlc: begin blocker (time-based supply limits), CreateHTLC (incoming / outgoing asset transfer:
+    swap-amount range, supply limit, time-based limit, fixed fee + minimum), ClaimHTLC incoming. *)
+Theorem htlc_validated_params_never_abort :
   forall (p : ht_params) (o : ht_op) (r : res),
-    validate_ht p = Ok -> ht_small p -> ht_path p o = Some r -> res_outcome r <> Abort.
+    validate_ht p = Ok -> ht_path p o = Some r -> res_outcome r <> Abort.
 Proof. exact ht_no_panic. Qed.
-Print Assumptions htlc_validated_params_never_abort_partial.
+Print Assumptions htlc_validated_params_never_abort.
 
-(** service: BindService (minimum deposit), CallService (timeout), RespondService (fee tax) and the
-    end blocker's slashing of expired requests.  Refuted by the same family: a validated minimum
-    deposit multiple of 2^62 makes [price * multiple] overflow the 256-bit Int for a price of 2^200,
-    a bind that under the default multiple is an ordinary rejection. *)
-Theorem service_validated_params_never_abort_refuted :
-  exists (p : sv_params) (o : sv_op) (w : Z),
-    validate_sv p = Ok /\ sv_small p /\ sv_path p o = Some (Panic w) /\ sv_path sv_defaults o = Some Reject.
-Proof. exists sv_big, (SvBind (2 ^ 200) 5000 3 1000000), 402. exact sv_refuted. Qed.
-Print Assumptions service_validated_params_never_abort_refuted.
-
-(** ... and holds for non-negative prices below 2^192 and amounts below 2^255 ([sv_small]: the
-    multiple is an int64). *)
-Theorem service_validated_params_never_abort_partial :
+(** service: BindService (restricted fee denom, QoS vs maximum timeout, minimum deposit = price x
+    multiple vs the parameter), UpdateServiceBinding, EnableServiceBinding, RefundServiceDeposit
+    (arbitration limit + complaint retrospect), CallService, UpdateRequestContext (timeout),
+    RespondService (fee tax), the end blocker's slashing -- for non-negative prices and request fees /
+    deposits below 2^255 (beyond that the same operation overflows under the defaults as well). *)
+Theorem service_validated_params_never_abort :
   forall (p : sv_params) (o : sv_op) (r : res),
-    validate_sv p = Ok -> sv_small p -> sv_op_wf o -> sv_path p o = Some r -> res_outcome r <> Abort.
+    validate_sv p = Ok -> sv_op_wf o -> sv_path p o = Some r -> res_outcome r <> Abort.
 Proof. exact sv_no_panic. Qed.
-Print Assumptions service_validated_params_never_abort_partial.
+Print Assumptions service_validated_params_never_abort.
 
-(** coinswap: pool creation (fee split), both swap directions, unilateral add / remove. *)
-Theorem coinswap_validated_params_never_abort_refuted :
-  exists (p : cs_params) (o : cs_op) (w : Z),
-    validate_cs p = Ok /\ cs_op_wf o /\ cs_path p o = Some (Panic w).
-Proof. exists cs_big, (CsCreatePool 0 0 0 1 1), 103. exact cs_refuted. Qed.
-Print Assumptions coinswap_validated_params_never_abort_refuted.
-
-Theorem coinswap_validated_params_never_abort_partial :
+(** coinswap: pool creation (fee split), both swap directions, unilateral add / remove, for the
+    inputs ValidateBasic lets through (positive amounts, positive reserve of an existing pool). *)
+Theorem coinswap_validated_params_never_abort :
   forall (p : cs_params) (o : cs_op) (r : res),
-    validate_cs p = Ok -> cs_small p -> cs_op_wf o -> cs_path p o = Some r -> res_outcome r <> Abort.
+    validate_cs p = Ok -> cs_op_wf o -> cs_path p o = Some r -> res_outcome r <> Abort.
 Proof. exact cs_no_panic. Qed.
-Print Assumptions coinswap_validated_params_never_abort_partial.
+Print Assumptions coinswap_validated_params_never_abort.
 
-(** farm: CreatePool (reward-category limit, fee split). *)
-Theorem farm_validated_params_never_abort_refuted :
-  exists (p : fm_params) (o : fm_op) (w : Z), validate_fm p = Ok /\ fm_path p o = Some (Panic w).
-Proof. exists fm_big, (FmCreatePool 1 0), 203. exact fm_refuted. Qed.
-Print Assumptions farm_validated_params_never_abort_refuted.
-
-Theorem farm_validated_params_never_abort_partial :
+(** farm: CreatePool (category limit, fee split), CreatePoolWithCommunityPool (category limit). *)
+Theorem farm_validated_params_never_abort :
   forall (p : fm_params) (o : fm_op) (r : res),
-    validate_fm p = Ok -> fm_small p -> fm_path p o = Some r -> res_outcome r <> Abort.
+    validate_fm p = Ok -> fm_path p o = Some r -> res_outcome r <> Abort.
 Proof. exact fm_no_panic. Qed.
-Print Assumptions farm_validated_params_never_abort_partial.
+Print Assumptions farm_validated_params_never_abort.
 
-(** token: IssueToken and MintToken (issue fee by fee factor, mint-fee ratio, fee split). *)
-Theorem token_validated_params_never_abort_refuted :
-  exists (p : tk_params) (o : tk_op) (w : Z),
-    validate_tk p = Ok /\ tk_op_wf o /\ tk_path p o = Some (Panic w).
-Proof. exists tk_big, (TkIssue P18 0), 503. exact tk_refuted. Qed.
-Print Assumptions token_validated_params_never_abort_refuted.
-
-Theorem token_validated_params_never_abort_partial :
+(** token: IssueToken / MintToken (issue fee by fee factor >= 1.00, mint-fee ratio, conversion to the
+    fee token's min unit for EVERY scale 0..18, fee split), DeployERC20 / SwapToERC20 / SwapFromERC20
+    (ERC20 switch, beacon). *)
+Theorem token_validated_params_never_abort :
   forall (p : tk_params) (o : tk_op) (r : res),
-    validate_tk p = Ok -> tk_small p -> tk_op_wf o -> tk_path p o = Some r -> res_outcome r <> Abort.
+    validate_tk p = Ok -> tk_op_wf o -> tk_path p o = Some r -> res_outcome r <> Abort.
 Proof. exact tk_no_panic. Qed.
-Print Assumptions token_validated_params_never_abort_partial.
+Print Assumptions token_validated_params_never_abort.
 
-(** ** ... over histories *)
-
-(** After ANY history of update attempts (by anybody, by message or genesis, valid or not) and
-    operations, every operation of the five modules ends in success or an ordinary rejection --
-    provided no submitted fee amount reaches 2^255 and operation inputs are well formed. *)
-Theorem no_operation_aborts_partial :
+(** ** ... over histories: after ANY history of update attempts (by anybody, by message or genesis,
+    valid or not, of any magnitude) and operations, every well-formed operation of the five modules
+    ends in success or an ordinary rejection. *)
+Theorem no_operation_aborts :
   forall (h : list pstep) (st : pstep) (r : res),
-    Forall step_wf h -> step_wf st ->
-    op_result (run ps_init h) st = Some r -> res_outcome r <> Abort.
+    step_wf st -> op_result (run ps_init h) st = Some r -> res_outcome r <> Abort.
 Proof. exact no_operation_aborts_lemma. Qed.
-Print Assumptions no_operation_aborts_partial.
+Print Assumptions no_operation_aborts.
 
-Theorem no_operation_aborts_refuted :
-  exists (h : list pstep) (st : pstep) (w : Z),
-    upd_outcome ps_init (hd st h) = Some Ok /\ ps_valid (run ps_init h)
-    /\ op_result (run ps_init h) st = Some (Panic w).
-Proof. exact no_operation_aborts_refuted_lemma. Qed.
-Print Assumptions no_operation_aborts_refuted.
+(** ** What was refuted at the pinned commit (before the repairs)
+    [validate_*_pinned] restate the validators of the pinned code (tied to it by the check of rounds
+    1-2; replays in [corpus/C16]).  Each witness was ACCEPTED there and makes a handler abort; each is
+    rejected by the repaired validator. *)
+Theorem coinswap_refuted_at_pinned_commit :
+  validate_cs_pinned cs_big = Ok /\ cs_path cs_big (CsCreatePool 0 0 0 1 1) = Some (Panic 103)
+  /\ validate_cs_pinned cs_bad_denom = Ok /\ cs_path cs_bad_denom (CsCreatePool 1000000 0 1000000 10 10) = Some (Panic 104)
+  /\ validate_cs cs_big = Rej /\ validate_cs cs_bad_denom = Rej.
+Proof. exact cs_pinned_refuted. Qed.
+Print Assumptions coinswap_refuted_at_pinned_commit.
+
+Theorem farm_refuted_at_pinned_commit :
+  validate_fm_pinned fm_big = Ok /\ fm_path fm_big (FmCreatePool 1 0) = Some (Panic 203)
+  /\ validate_fm_pinned fm_tax2 = Ok /\ fm_path fm_tax2 (FmCreatePool 1 1000000) = Some (Panic 206)
+  /\ validate_fm fm_big = Rej /\ validate_fm fm_tax2 = Rej.
+Proof. exact fm_pinned_refuted. Qed.
+Print Assumptions farm_refuted_at_pinned_commit.
+
+Theorem htlc_refuted_at_pinned_commit :
+  validate_ht_pinned ht_big = Ok
+  /\ ht_path ht_big (HtCreate 10 72339 1 2 61 (Some (0, 0, 0, 0)) 100000) = Some (Panic 318)
+  /\ validate_ht ht_big = Rej.
+Proof. exact ht_pinned_refuted. Qed.
+Print Assumptions htlc_refuted_at_pinned_commit.
+
+(** service: the set is (and stays) valid; the pinned HANDLER aborted, while the same bind under the
+    default multiple was an ordinary rejection; the repaired handler rejects. *)
+Theorem service_refuted_at_pinned_commit :
+  validate_sv sv_big = Ok
+  /\ sv_bind_pinned sv_big (2 ^ 200) 5000 3 1000000 = Panic 402
+  /\ sv_bind_pinned sv_defaults (2 ^ 200) 5000 3 1000000 = Reject
+  /\ sv_path sv_big (SvBind (2 ^ 200) 5000 3 1000000 1) = Some Reject.
+Proof. repeat split; vm_compute; reflexivity. Qed.
+Print Assumptions service_refuted_at_pinned_commit.
+
+Theorem token_refuted_at_pinned_commit :
+  validate_tk_pinned tk_big = Ok /\ tk_path tk_big (TkIssue P18 0 0) = Some (Panic 503)
+  /\ validate_tk_pinned tk_bad_denom = Ok /\ tk_path tk_bad_denom (TkIssue P18 0 1000000) = Some (Panic 504)
+  /\ validate_tk tk_big = Rej /\ validate_tk tk_bad_denom = Rej.
+Proof. exact tk_pinned_refuted. Qed.
+Print Assumptions token_refuted_at_pinned_commit.
 
 (** ** The defaults validate ([Gen/ParamsDefaults.v] is regenerated from the DefaultParams() functions) *)
 Theorem defaults_validate :
@@ -173,71 +218,87 @@ Theorem defaults_validate :
 Proof. exact defaults_validate_lemma. Qed.
 Print Assumptions defaults_validate.
 
-(** ** Non-vacuity *)
+(** ** The check and the theorems ([Params/Sound.v]) *)
 
-(** the hypotheses are met by non-default sets and operations that really succeed *)
-Example c16_nonvacuous_coinswap :
-  let p := mkCs (Some 999999999999999999) (mkCoin 2 (Some 1)) (Some 1) (Some 0) in
-  validate_cs p = Ok /\ cs_small p
-  /\ cs_op_wf (CsSell 1000 1000000 1000000 5000) /\ cs_path p (CsSell 1000000000000000000000 1000000 1000000 1000000000000000000000) = Some Done
-  /\ cs_path p (CsCreatePool 10 10 10 5 5) = Some Done.
-Proof. cbv zeta. repeat split; vm_compute; try reflexivity; discriminate. Qed.
+(** The model's own observations pass the check: for every module, every way of submitting, every
+    submitted set (valid or not, any magnitude) and every list of well-formed operations, the case
+    built from the MODEL's outcomes evaluates to (-1, -1, 0) -- the check can never raise an alarm on
+    code that agrees with the model. *)
+Theorem model_passes_check :
+  forall m : mspec, mspec_wf m -> check_case (model_case_of m) = (-1, -1, 0).
+Proof. exact model_passes_check_lemma. Qed.
+Print Assumptions model_passes_check.
 
-Example c16_nonvacuous_htlc :
-  let a := mkAsset 10 (Some 1000) true 3600 (Some 1000) true 2 (Some 0) (Some 1) (Some 1000) 50 34560 in
-  validate_ht [a] = Ok /\ ht_small [a]
-  /\ ht_path [a] (HtCreate 10 1000 2 1 50 (Some (0, 0, 0, 0)) 0) = Some Done
-  /\ ht_path [a] (HtCreate 10 1000 2 1 50 (Some (0, 0, 1, 0)) 0) = Some Reject
-  /\ ht_path [a] HtBegin = Some Done.
-Proof.
-  cbv zeta. split; [vm_compute; reflexivity|]. split; [|repeat split; vm_compute; reflexivity].
-  repeat apply Forall_cons; try apply Forall_nil. vm_compute. reflexivity.
-Qed.
-
-Example c16_nonvacuous_service :
-  let p := mkSv 1 1 [] (Some 999999999999999999) (Some 1000000000000000000) 1 1 1 1 true in
-  validate_sv p = Ok /\ sv_small p /\ sv_op_wf (SvBlocks [5000; 1])
-  /\ sv_path p (SvBlocks [5000; 1]) = Some Done /\ sv_path p (SvRespond 100 100) = Some Done.
-Proof.
-  cbv zeta. split; [vm_compute; reflexivity|]. split; [vm_compute; reflexivity|]. split; [|split; vm_compute; reflexivity].
-  simpl. repeat apply Forall_cons; try apply Forall_nil; (split; [vm_compute; discriminate|vm_compute; reflexivity]).
-Qed.
-
-Example c16_nonvacuous_farm_token :
-  let f := mkFm (mkCoin 1 (Some 0)) 0 (Some 999999999999999999) in
-  let t := mkTk (Some 1000000000000000000) (mkCoin 1 (Some 0)) (Some 1000000000000000000) false 1 in
-  validate_fm f = Ok /\ fm_small f /\ fm_path f (FmCreatePool 0 0) = Some Done
-  /\ validate_tk t = Ok /\ tk_small t /\ tk_op_wf (TkMint 1000000000000000000 5)
-  /\ tk_path t (TkMint 1000000000000000000 5) = Some Done.
-Proof. cbv zeta. repeat split; vm_compute; try reflexivity; discriminate. Qed.
-
-(** a history in which a stranger, an invalid set, a genesis import and the authority all try, and
-    operations run in between: the hypotheses of [no_operation_aborts_partial] hold and the stored
-    coinswap set really changes (only) at the authority's valid update *)
-Example c16_nonvacuous_history :
-  let p := mkCs (Some 500000000000000000) (mkCoin 1 (Some 7)) (Some 1) (Some 0) in
-  let bad := mkCs (Some 0) (mkCoin 1 (Some 7)) (Some 1) (Some 0) in
-  let h := [UpdCS 1 p; OpCS (CsSell 5 100 100 5); UpdCS 0 bad; UpdCS 2 bad; UpdFM 1 fm_big; UpdCS 0 p; OpFM (FmCreatePool 1 9)] in
-  Forall step_wf (firstn 4 h ++ skipn 5 h)
-  /\ ps_cs (run ps_init (firstn 5 h)) = cs_defaults
-  /\ ps_cs (run ps_init h) = p
-  /\ ps_fm (run ps_init h) = fm_defaults.
-Proof.
-  cbv zeta. split; [|repeat split; vm_compute; reflexivity].
-  simpl. repeat apply Forall_cons; try apply Forall_nil; vm_compute; try reflexivity; try exact I; discriminate.
-Qed.
-
-(** ** The check never demands more than what is proved ([Params/Sound.v])
-
-    On any case whose observations agree with the model at every step (first component of
-    [check_case] = -1), whose submitted set and operations satisfy the side conditions above and
-    whose operations are all modelled ones, the property clauses evaluated on the implementation's
-    own observations hold (second component = -1): no update by a non-authority, no invalid set
-    stored, no abort under the accepted set. *)
+(** On any case whose observations agree with the model at every step (first component = -1), whose
+    operations are modelled ones and well formed, the property clauses evaluated on the
+    implementation's own observations hold (second component = -1): no update by a non-authority, no
+    invalid set stored, no abort under the accepted set. *)
 Theorem agreement_implies_property :
   forall c : case, case_wf c -> fst (fst (check_case c)) = -1 -> snd (fst (check_case c)) = -1.
 Proof. exact agreement_implies_property_lemma. Qed.
 Print Assumptions agreement_implies_property.
+
+(** ** Non-vacuity *)
+
+(** the hypotheses are met by non-default sets, boundary values and operations that really succeed *)
+Example c16_nonvacuous_coinswap :
+  let p := mkCs (Some 999999999999999999) (mkCoin 2 (Some (2 ^ 255 - 1))) (Some 999999999999999999) (Some 0) in
+  validate_cs p = Ok
+  /\ cs_op_wf (CsSell 1000 1000000 1000000 5000)
+  /\ cs_path p (CsSell 1000000000000000000000 1000000 1000000 1000000000000000000000) = Some Done
+  /\ cs_path p (CsCreatePool 10 10 10 5 5) = Some Reject
+  /\ cs_path (mkCs (Some 1) (mkCoin 1 (Some 1)) (Some 1) (Some 0)) (CsCreatePool 10 10 10 5 5) = Some Done.
+Proof. cbv zeta. repeat split; vm_compute; try reflexivity; discriminate. Qed.
+
+Example c16_nonvacuous_htlc :
+  let a := mkAsset 10 (Some 1000) true 3600 (Some 1000) true 2 (Some (2 ^ 255)) (Some (2 ^ 255 - 1)) (Some (2 ^ 255)) 50 34560 in
+  let b := mkAsset 11 (Some 1000) true 3600 (Some 1000) true 2 (Some 0) (Some 1) (Some 1000) 50 34560 in
+  validate_ht [a; b] = Ok
+  /\ ht_path [a; b] (HtCreate 11 1000 2 1 50 (Some (0, 0, 0, 0)) 0) = Some Done
+  /\ ht_path [a; b] (HtCreate 11 1000 2 1 50 (Some (0, 0, 1, 0)) 0) = Some Reject
+  /\ ht_path [a; b] (HtCreate 10 1000 1 2 50 (Some (0, 0, 5000, 0)) 5000) = Some Reject
+  /\ ht_path [a; b] HtBegin = Some Done.
+Proof. cbv zeta. repeat split; vm_compute; reflexivity. Qed.
+
+Example c16_nonvacuous_service :
+  let p := mkSv 1 (2 ^ 62) [] (Some 999999999999999999) (Some 1000000000000000000) 1 1 1 1 true in
+  validate_sv p = Ok /\ sv_op_wf (SvBlocks [5000; 1]) /\ sv_op_wf (SvBind (2 ^ 200) 5 1 10 1)
+  /\ sv_path p (SvBlocks [5000; 1]) = Some Done /\ sv_path p (SvRespond 100 100) = Some Done
+  /\ sv_path p (SvBind (2 ^ 200) 5 1 10 1) = Some Reject
+  /\ sv_path p (SvUpdate true 0 10 5 1 100) = Some Done
+  /\ sv_path p (SvRefund false 10 1000 1002) = Some Done /\ sv_path p (SvRefund false 10 1000 1001) = Some Reject
+  /\ sv_path p (SvUpdateCtx false 0 1 1 1 0 0) = Some Done.
+Proof.
+  cbv zeta. split; [vm_compute; reflexivity|]. split; [|split; [|repeat split; vm_compute; reflexivity]].
+  - simpl. repeat apply Forall_cons; try apply Forall_nil; (split; [vm_compute; discriminate|vm_compute; reflexivity]).
+  - simpl. vm_compute. discriminate.
+Qed.
+
+Example c16_nonvacuous_farm_token :
+  let f := mkFm (mkCoin 1 (Some 0)) 0 (Some 999999999999999999) in
+  let t := mkTk (Some 1000000000000000000) (mkCoin 1 (Some (2 ^ 195 - 1))) (Some 1000000000000000000) true 1 in
+  validate_fm f = Ok /\ fm_path f (FmCreatePool 0 0) = Some Done /\ fm_path f (FmCreateCP 1) = Some Reject
+  /\ validate_tk t = Ok /\ tk_op_wf (TkMint 1000000000000000000 18 5)
+  /\ tk_path t (TkMint 1000000000000000000 18 5) = Some Reject
+  /\ tk_path t (TkMint 1000000000000000000 18 (2 ^ 255)) = Some Done
+  /\ tk_path t (TkDeploy false) = Some Done /\ tk_path t (TkSwapTo true 5 5) = Some Done.
+Proof. cbv zeta. repeat split; vm_compute; try reflexivity; discriminate. Qed.
+
+(** a history in which a stranger, an invalid set, a genesis import, an extreme set and the authority
+    all try, and operations run in between: the stored coinswap set changes (only) at the
+    authority's valid update *)
+Example c16_nonvacuous_history :
+  let p := mkCs (Some 500000000000000000) (mkCoin 1 (Some 7)) (Some 1) (Some 0) in
+  let bad := mkCs (Some 0) (mkCoin 1 (Some 7)) (Some 1) (Some 0) in
+  let h := [UpdCS 1 p; OpCS (CsSell 5 100 100 5); UpdCS 0 bad; UpdCS 2 bad; UpdCS 0 cs_big; UpdFM 0 fm_big; UpdCS 0 p; OpFM (FmCreatePool 1 9)] in
+  Forall step_wf h
+  /\ ps_cs (run ps_init (firstn 6 h)) = cs_defaults
+  /\ ps_cs (run ps_init h) = p
+  /\ ps_fm (run ps_init h) = fm_defaults.
+Proof.
+  cbv zeta. split; [|repeat split; vm_compute; reflexivity].
+  repeat apply Forall_cons; try apply Forall_nil; simpl; try exact I; lia.
+Qed.
 
 Example c16_nonvacuous_case :
   let p := mkCs (Some 500000000000000000) (mkCoin 1 (Some 7)) (Some 1) (Some 0) in
@@ -245,20 +306,9 @@ Example c16_nonvacuous_case :
                      [(CsCreatePool 100 100 100 10 10, 0, CsCreatePool 100 100 100 10 10, 1);
                       (CsSell 5 100 100 5, 0, CsSell 5 100 100 5, 0);
                       (CsBuy 200 100 100 5, 1, CsBuy 200 100 100 5, 1)]) in
-  case_wf c /\ check_case c = (-1, -1, 0).
+  case_wf c /\ check_case c = (-1, -1, 0)
+  /\ c = model_case_of (MCS 0 p [CsCreatePool 100 100 100 10 10; CsSell 5 100 100 5; CsBuy 200 100 100 5]).
 Proof.
-  cbv zeta. split; [|vm_compute; reflexivity].
-  split; [vm_compute; reflexivity|].
+  cbv zeta. split; [|split; vm_compute; reflexivity].
   simpl. repeat apply Forall_cons; try apply Forall_nil; (split; [simpl; try exact I; lia|vm_compute; discriminate]).
 Qed.
-
-(** the three repaired defects: the sets that made a handler abort are now rejected by validation
-    (the abort points are still in the model: they are what the rejected sets WOULD reach) *)
-Example c16_fixed_defects :
-  let f := mkFm (mkCoin 1 (Some 5000)) 2 (Some 2000000000000000000) in
-  let c := mkCs (Some 3000000000000000) (mkCoin 3 (Some 5000)) (Some 400000000000000000) (Some 2000000000000000) in
-  let t := mkTk (Some 400000000000000000) (mkCoin 0 (Some 60000)) (Some 100000000000000000) true 0 in
-  validate_fm f = Rej /\ fm_path f (FmCreatePool 1 1000000) = Some (Panic 206)
-  /\ validate_cs c = Rej /\ cs_path c (CsCreatePool 1000000 0 1000000 10 10) = Some (Panic 104)
-  /\ validate_tk t = Rej /\ tk_path t (TkIssue P18 1000000) = Some (Panic 504).
-Proof. cbv zeta. repeat split; vm_compute; reflexivity. Qed.
